@@ -201,7 +201,7 @@ func c18Unpack13Codec(cidLen int, required, enabled bool) *v.Codec {
 	var corpus [][]byte
 	// a well-framed ACK record with an empty body
 	zero := []byte{26, 254, 253, 0, 0, 0, 0, 0, 0, 0, 0, 0, 0}
-	if cidLen == 1 && enabled {
+	if cidLen == 1 && required && enabled { // one context only: the registered known finding names it
 		r1 := append([]byte{60, 1, 0, 7, 0, 16}, bytes.Repeat([]byte{170}, 16)...)
 		r2 := append([]byte{60, 2, 0, 8, 0, 16}, bytes.Repeat([]byte{187}, 16)...)
 		corpus = [][]byte{
@@ -212,9 +212,34 @@ func c18Unpack13Codec(cidLen int, required, enabled bool) *v.Codec {
 		}
 	}
 
+	corpusValid := [][]byte{zero}
+	if enabled && (cidLen == 0 || !required) {
+		// Ciphertext records WITHOUT the C bit (a connection id was offered but is not in use, or
+		// none is configured), each followed by further records: 16-bit and 8-bit sequence
+		// number with the L bit, a plaintext record, and a final record without the L bit. The
+		// extent of every record is its own header (no CID) plus the declared length.
+		body := func(x byte) []byte { return bytes.Repeat([]byte{x}, 16) }
+		rA := append([]byte{0x2c, 0, 7, 0, 16}, body(0xa1)...)
+		rB := append([]byte{0x24, 8, 0, 16}, body(0xb2)...)
+		pl := []byte{21, 254, 253, 0, 0, 0, 0, 0, 0, 0, 9, 0, 2, 2, 40}
+		rC := append([]byte{0x21, 9}, body(0xc3)...)
+		join := func(rs ...[]byte) []byte { return bytes.Join(rs, nil) }
+		corpusValid = append(corpusValid, join(rA, rB), join(rB, pl), join(rA, rB, pl, rC), join(rB, rC))
+	}
+	if enabled && cidLen > 0 {
+		// the same shapes WITH the C bit and a connection id of the configured length
+		cid := bytes.Repeat([]byte{0x5c}, cidLen)
+		body := func(x byte) []byte { return bytes.Repeat([]byte{x}, 16) }
+		rA := append(append([]byte{0x3c}, cid...), append([]byte{0, 7, 0, 16}, body(0xa1)...)...)
+		rB := append(append([]byte{0x34}, cid...), append([]byte{8, 0, 16}, body(0xb2)...)...)
+		pl := []byte{21, 254, 253, 0, 0, 0, 0, 0, 0, 0, 9, 0, 2, 2, 40}
+		rC := append(append([]byte{0x31}, cid...), append([]byte{9}, body(0xc3)...)...)
+		corpusValid = append(corpusValid, bytes.Join([][]byte{rA, rB, pl, rC}, nil), bytes.Join([][]byte{rB, rA}, nil))
+	}
+
 	return &v.Codec{
 		Name: "unpack13", ID: 23, Ctx: []int{cidLen, b2i(required), b2i(enabled)}, Corpus: corpus,
-		CorpusValid: [][]byte{zero},
+		CorpusValid: corpusValid,
 		Decode: func(in []byte) (*v.Decoded, error) {
 			recs, err := UnpackDatagram13(in, cidLen, required, enabled)
 			if err != nil {
@@ -233,8 +258,10 @@ func c18Unpack13Codec(cidLen int, required, enabled bool) *v.Codec {
 			d := v.Dump{}
 			d.N(uint64(n))
 			out := []byte{}
+			// one connection id per datagram (a different one stops the unpacker); when a CID is
+			// configured but not required, half of the datagrams carry none: no C bit at all
 			cid := []byte{}
-			if cidLen > 0 {
+			if cidLen > 0 && (required || r.Chance(50)) {
 				cid = r.Bytes(cidLen)
 			}
 			for i := 0; i < n; i++ {
